@@ -169,13 +169,18 @@ def run_sched(schedule, battery):
     sch = Scheduler(names, nfilter, nres)
     results = {}
 
+    early = {}
+
     def body(name):
         sys.settrace(sch.tracer(name))
         try:
             from lsprotocol import converters
-            results[name] = ("ok", converters.get_converter())
+            conv = converters.get_converter()
+            results[name] = ("ok", conv)
+            # use the converter at once, while other threads may still be inside their first call
+            early[name] = probe_events(name, "d", conv, types, battery[:60])
         except BaseException as e:  # noqa: BLE001
-            results[name] = ("error", type(e).__name__ + ": " + str(e)[:120])
+            results.setdefault(name, ("error", type(e).__name__ + ": " + str(e)[:120]))
         finally:
             sys.settrace(None)
             with sch.cv:
@@ -219,6 +224,8 @@ def run_sched(schedule, battery):
         kind, val = results.get(n, ("error", "thread did not finish"))
         events.append({"e": "Create", "conv": n, "cfg": "fresh", "ok": kind == "ok", "exc": "" if kind == "ok" else val})
     for n in names:
+        events.extend(early.get(n, []))
+    for n in names:
         kind, val = results.get(n, ("error", ""))
         if kind == "ok":
             events.extend(probe_events(n, "d", val, types, battery))
@@ -246,14 +253,16 @@ def run_hist(history, battery):
 def run_stress(nthreads, battery):
     sys.setswitchinterval(1e-6)
     from lsprotocol import types
-    results = {}
+    results, early = {}, {}
     start = threading.Barrier(nthreads)
 
     def body(name):
         try:
             start.wait()
             from lsprotocol import converters
-            results[name] = ("ok", converters.get_converter())
+            conv = converters.get_converter()
+            results[name] = ("ok", conv)
+            early[name] = probe_events(name, "d", conv, types, battery[:40])
         except BaseException as e:  # noqa: BLE001
             results[name] = ("error", type(e).__name__ + ": " + str(e)[:120])
 
@@ -267,6 +276,7 @@ def run_stress(nthreads, battery):
         n = "s%d" % i
         kind, val = results.get(n, ("error", "thread did not finish"))
         events.append({"e": "Create", "conv": n, "cfg": "fresh", "ok": kind == "ok", "exc": "" if kind == "ok" else val})
+        events.extend(early.get(n, []))
         if kind == "ok":
             events.extend(probe_events(n, "d", val, types, battery[:40]))
     return {"events": events, "forced": 0, "deviated": 0}
